@@ -141,7 +141,12 @@ pub fn exec(rec: &Value, _st: &mut State) -> Value {
             let sg2 = gi(rec, "sg2");
             let mut res = vec![];
             for g in gvvi(rec, "gs") {
-                let guess = Circle2::new(g[0] as f64 * s, g[1] as f64 * s, g[2] as f64 * s);
+                // a fourth component asks for the mean distance of the points from the guessed centre as radius
+                let gr = if g.len() > 3 {
+                    let c = Point2::new(g[0] as f64 * s, g[1] as f64 * s);
+                    pts.iter().map(|p| (p - c).norm()).sum::<f64>() / pts.len() as f64
+                } else { g[2] as f64 * s };
+                let guess = Circle2::new(g[0] as f64 * s, g[1] as f64 * s, gr);
                 let mode = if sg2 == 0 { BestFit::All } else { BestFit::Gaussian(sg2 as f64 / 2.0) };
                 let mut qq = Q::new();
                 match Circle2::fitting_circle(&pts, &guess, mode) {
